@@ -33,6 +33,20 @@ CHECKS = {
        "A session that does not settle is dropped (tool level), a session the model cannot explain without any C07 statement "
        "failing is counted as spec_drift, not as a violation.",
   technique="TLA+ session model; recorded pty sessions validated by TLC with silent steps, C07 statements asserted on observations"),
+ "C08": dict(
+  category="model_checking",
+  text="TLC checks the design-level model of run_pipeline's descriptor discipline (spec/Pipeline.tla: every interleaving of shell "
+       "steps, child set-up steps and stage I/O for 3..4 stages, capture pipes, pipe() failing at each position) for ExecFds, "
+       "ShellFdsRestored, NoForeignEnds, FaultClean and termination. Generated command sessions (pipelines of 1..6 stages, every "
+       "redirection form, builtins with redirection, substitutions of externals/builtins/functions, here-strings, failing and "
+       "not-found commands, background jobs) run hook-free under strace -ff; every descriptor-affecting system call is replayed "
+       "on the Kernel descriptor model (spec/TraceFds.tla) and ExecFds (only 0,1,2 survive each execve) and ShellFdsRestored (the "
+       "shell's set at every marker equals its set at the first) are evaluated in every state; helpers independently report what "
+       "they inherited. Fault enumeration: RLIMIT_NOFILE values 4..40 before pipeline shapes.",
+  design_ref="DESIGN.md 3.5, 3.6, 6 (C08)",
+  note="Trusted: TLC, strace's decoding (unknown fd-producing calls stop the check), per-process call order + clone return values; "
+       "sessions are scripts (interactive path: C07).",
+  technique="TLA+ kernel fd model; strace traces of generated sessions validated by TLC (invariants at every execve and marker); RLIMIT fault enumeration"),
  "C06": dict(
   category="model_checking",
   text="TLC explores every interleaving of child status changes (with Linux's report coalescing), foreground-wait iterations, "
